@@ -657,6 +657,7 @@ def setup():
     units = []
     for prop in ["C01"]:
         units += hist_units(prop, "quick", vf.SEED)
+    units += layout_units("C02", "quick", vf.SEED)
     units += matrix_units("quick", vf.SEED)
     units += cmp_units("C13", "quick", vf.SEED) + ref_units("quick", vf.SEED) + elem_units("quick", vf.SEED)
     units += emplace_units("quick", vf.SEED) + fault_units("quick", vf.SEED) + race_units("quick", vf.SEED)
